@@ -90,6 +90,9 @@ func RunOnce(t *testing.T, p *Prop, seed uint64, tape *simkit.Tape, tier string,
 	res.Steps = env.S.Steps
 	res.SimTime = env.S.SimElapsed
 	res.Capped = env.S.Capped
+	if env.S.Capped {
+		env.S.Stats["capped_by_"+env.S.CappedBy]++
+	}
 	res.Nontrivial = nontriv
 	res.Stats = env.S.Stats
 	res.Sample = sample
